@@ -8,7 +8,7 @@ From RPCX Require Wire.Bytes Wire.Header Wire.Codec Wire.CodecSpec.
 From RPCX Require Select.Simple Select.Jump Select.DoubleJump.
 From RPCX Require XClient.Breaker.
 From RPCX Require Client.ClientSM.
-From RPCX Require XClient.FailMode.
+From RPCX Require XClient.FailMode XClient.Multi.
 Extraction Language OCaml.
 Extraction "model.ml"
   RoundRobin.rr_new RoundRobin.rr_run
@@ -23,4 +23,5 @@ Extraction "model.ml"
   Jump.jump Jump.hash_string DoubleJump.ch_new DoubleJump.ch_update DoubleJump.ch_select
   Breaker.b_run Breaker.b_init Breaker.xb_run
   ClientSM.run ClientSM.init ClientSM.new_call
-  FailMode.xcall.
+  FailMode.xcall
+  Multi.broadcast Multi.fork Multi.inform.
